@@ -32,7 +32,7 @@ P = {
     'rule': 'a case is one Ethereum transaction (type, signer chain id, nonce, prices, gas, To or creation, value, data, access list, key; '
             'amounts nil/zero/boundary/2^256-1/beyond 256 bits; data 0..65537 bytes; access lists with repeated addresses and empty key '
             'lists, up to 330 entries; 12% with arbitrary unsigned/malformed V,R,S) signed with go-ethereum and passed through '
-            'FromEthereumTx, BuildTx, TxEncoder, TxDecoder, AsTransaction; non-trivial = the whole round trip completed (the wrap was not '
+            'FromEthereumTx, BuildTx, TxEncoder, TxDecoder, AsTransaction (a message that validates must record the canonical hash text: the same message with the digits in upper case, without 0x, inside junk or with a suffix must not validate); non-trivial = the whole round trip completed (the wrap was not '
             'refused for a value above 256 bits); distinct = distinct inputs. Every transaction that wraps is, in a second case, the target of '
             'lookups by hash (about 55 per transaction, explicit in the input): envelopes [A], [A,B]/[B,A], permutations of {A,B,C} and '
             '{A,B,C,D} (B,C,D short transactions of the same generator; 10% with A twice) are built (one message: the real BuildTx), encoded with '
